@@ -76,6 +76,7 @@ structure PlainSim (M : Maps) (ns : Array NodeM) (n : NodeM) (act : Option Str) 
   router : n.router = none
   acts : n.actions.map (·.2) = act.toList
   dest : DestIs M ns n.dexitDest ((es.getLast?).map (·.tgt))
+  blank : ∀ e ∈ es, e.cond.blank = true
 
 /-- the `wait` attribute of the router of a deciding row -/
 def waitOf (c : CRow) : Option Nat :=
@@ -194,7 +195,7 @@ inductive NodeSim (M : Maps) (ns : Array NodeM) (n : NodeM) (c : CRow) (es : Lis
 theorem NodeSim.ext {M : Maps} {ns ns' : Array NodeM} (h : NExt ns ns') {n : NodeM} {c : CRow} {es : List OutEdge}
     (hs : NodeSim M ns n c es) : NodeSim M ns' n c es := by
   cases hs with
-  | plain hk hp => exact .plain hk ⟨hp.kind, hp.router, hp.acts, hp.dest.ext h⟩
+  | plain hk hp => exact .plain hk ⟨hp.kind, hp.router, hp.acts, hp.dest.ext h, hp.blank⟩
   | sw r hk hp =>
     refine .sw r hk ⟨hp.kind, hp.acts, hp.router, hp.operand, hp.rname, hp.wait, hp.nrSome, hp.cases, hp.casecat,
       ?_, hp.dflt.ext h, fun nr hnr => (hp.nr nr hnr).ext h⟩
@@ -205,6 +206,92 @@ theorem NodeSim.ext {M : Maps} {ns ns' : Array NodeM} (h : NExt ns ns') {n : Nod
   | rnd r hk hp =>
     exact .rnd r hk ⟨hp.kind, hp.acts, hp.router, hp.rname, hp.uids, hp.names,
       hp.rel.imp (fun _ _ hd => ⟨hd.1.ext h, hd.2⟩), hp.gen⟩
+
+/-! #### an action row with conditional out-edges: the compiler puts a router node behind its node -/
+
+/-- what the router behind the node of an action row decides on: the variable its conditional edges
+name, or the reply -/
+def implOperand (es : List OutEdge) : Str := if (implVar es).isEmpty then "@input.text".toList else implVar es
+
+/-- it waits for a reply iff the edges name no variable -/
+def implWait (es : List OutEdge) : Option Nat := if (implVar es).isEmpty then some 0 else none
+
+/-- node `n` performs the action and leads to node `n'` (arena index `i'`), which decides -/
+structure ImplSim (M : Maps) (ns : Array NodeM) (n : NodeM) (c : CRow) (es : List OutEdge) (i' : Nat) (n' : NodeM)
+    (r : SwitchR) : Prop where
+  kind : n.kind = NodeKind.basic
+  router : n.router = none
+  acts : n.actions.map (·.2) = c.row.action.toList
+  link : n.dexitDest = Dest.node n'.uid
+  rnode : ns[i']? = some n'
+  kind' : n'.kind = NodeKind.switch
+  acts' : n'.actions = []
+  router' : n'.router = some (.sw r)
+  operand : r.operand = implOperand es
+  rname : r.resultName = none
+  wait : r.wait = implWait es
+  noResp : r.noResp = none
+  cases : r.cases.map (fun k => (k.type, k.args.map (·.getD []))) =
+    (testsOf .action es).map (fun e => refTest .action e.cond)
+  casecat : r.cases.map (·.catUid) = r.cats.map (·.uid)
+  catd : List.Forall₂ (fun (cat : Cat) (e : OutEdge) => DestIs M ns cat.dest (some e.tgt)) r.cats (testsOf .action es)
+  dflt : DestIs M ns r.dflt.dest (((es.filter (·.cond.blank)).getLast?).map (·.tgt))
+  some : testsOf .action es ≠ []
+
+/-- the nodes of a row: one node, or (action row with conditional out-edges) two -/
+inductive RowSim (M : Maps) (ns : Array NodeM) (n : NodeM) (c : CRow) (es : List OutEdge) : Option Nat → Prop
+  | one : NodeSim M ns n c es → RowSim M ns n c es none
+  | impl (i' : Nat) (n' : NodeM) (r : SwitchR) : kindOf c.row.type = .action → ImplSim M ns n c es i' n' r →
+      RowSim M ns n c es (some i')
+
+/-- other nodes change (keeping their identifiers), the router node of the row does not -/
+theorem RowSim.transfer {M : Maps} {ns ns' : Array NodeM} (h : NExt ns ns') {n : NodeM} {c : CRow} {es : List OutEdge}
+    {ro : Option Nat} (hro : ∀ i ∈ ro.toList, ns'[i]? = ns[i]?) (hs : RowSim M ns n c es ro) : RowSim M ns' n c es ro := by
+  cases hs with
+  | one hn => exact .one (hn.ext h)
+  | impl i' n' r hk hp =>
+    refine .impl i' n' r hk ⟨hp.kind, hp.router, hp.acts, hp.link, by rw [hro i' (by simp)]; exact hp.rnode, hp.kind',
+      hp.acts', hp.router', hp.operand, hp.rname, hp.wait, hp.noResp, hp.cases, hp.casecat, ?_, hp.dflt.ext h, hp.some⟩
+    exact hp.catd.imp (fun _ _ hd => hd.ext h)
+
+theorem DestIs.congrN {M M' : Maps} (hM : ∀ t, M'.nOf t = M.nOf t) {ns : Array NodeM} {d : Dest} {t : Option Target}
+    (hd : DestIs M ns d t) : DestIs M' ns d t := by
+  cases t with
+  | none => exact hd
+  | some t =>
+    cases t with
+    | exit => exact hd
+    | row k =>
+      obtain ⟨m, hm, e⟩ := hd
+      exact ⟨m, by rw [hM k]; exact hm, e⟩
+
+/-- only `nOf` matters for the nodes of a row -/
+theorem NodeSim.congrN {M M' : Maps} (hM : ∀ t, M'.nOf t = M.nOf t) {ns : Array NodeM} {n : NodeM} {c : CRow}
+    {es : List OutEdge} (hs : NodeSim M ns n c es) : NodeSim M' ns n c es := by
+  cases hs with
+  | plain hk hp => exact .plain hk ⟨hp.kind, hp.router, hp.acts, hp.dest.congrN hM, hp.blank⟩
+  | sw r hk hp =>
+    refine .sw r hk ⟨hp.kind, hp.acts, hp.router, hp.operand, hp.rname, hp.wait, hp.nrSome, hp.cases, hp.casecat,
+      ?_, hp.dflt.congrN hM, fun nr hnr => (hp.nr nr hnr).congrN hM⟩
+    exact hp.catd.imp (fun _ _ hd => hd.congrN hM)
+  | fix r sc hk hp =>
+    exact .fix r sc hk ⟨hp.kind, hp.acts, hp.router, hp.operand, hp.rname, hp.wait, hp.noResp, hp.cats, hp.sname,
+      hp.uidne, hp.cases, hp.succ.congrN hM, hp.dflt.congrN hM⟩
+  | rnd r hk hp =>
+    exact .rnd r hk ⟨hp.kind, hp.acts, hp.router, hp.rname, hp.uids, hp.names,
+      hp.rel.imp (fun _ _ hd => ⟨hd.1.congrN hM, hd.2⟩), hp.gen⟩
+
+theorem RowSim.congrN {M M' : Maps} (hM : ∀ t, M'.nOf t = M.nOf t) {ns : Array NodeM} {n : NodeM} {c : CRow}
+    {es : List OutEdge} {ro : Option Nat} (hs : RowSim M ns n c es ro) : RowSim M' ns n c es ro := by
+  cases hs with
+  | one hn => exact .one (hn.congrN hM)
+  | impl i' n' r hk hp =>
+    refine .impl i' n' r hk ⟨hp.kind, hp.router, hp.acts, hp.link, hp.rnode, hp.kind',
+      hp.acts', hp.router', hp.operand, hp.rname, hp.wait, hp.noResp, hp.cases, hp.casecat, ?_, hp.dflt.congrN hM, hp.some⟩
+    exact hp.catd.imp (fun _ _ hd => hd.congrN hM)
+
+/-- the arena indices of the nodes of row `j` -/
+def idxs (M : Maps) (j : Nat) : List Nat := M.nOf j :: (M.rOf j).toList
 
 /-- the category identifiers of the random routers in the arena were drawn from the counter -/
 def RFresh (nodes : Array NodeM) (next : Nat) : Prop :=
@@ -231,33 +318,51 @@ structure Rel (rows : List CRow) (M : Maps) (pd : Bool) (kg : Nat) (s : St) (st 
   srcok : ∀ e ∈ st.out, e.src < kg ∧ ∃ c, rows[e.src]? = some c ∧ isNodeRow c = true
   tgtok : ∀ e ∈ st.out, ∀ t, e.tgt = Target.row t → t < kg ∨ (pd = true ∧ t = kg)
   args : s.noArgs = RefFlow.noArgsTests
-  node : ∀ j c, Valid rows pd kg j c → ∃ n : NodeM, s.nodes[M.nOf j]? = some n ∧ NodeSim M s.nodes n c (outOf st j)
-  inj : ∀ j c j' c', Valid rows pd kg j c → Valid rows pd kg j' c' → M.nOf j = M.nOf j' → j = j'
+  node : ∀ j c, Valid rows pd kg j c →
+    ∃ n : NodeM, s.nodes[M.nOf j]? = some n ∧ RowSim M s.nodes n c (outOf st j) (M.rOf j)
+  disj : ∀ j c j' c', Valid rows pd kg j c → Valid rows pd kg j' c' → ∀ x, x ∈ idxs M j → x ∈ idxs M j' → j = j'
+  rne : ∀ j i', M.rOf j = some i' → i' ≠ M.nOf j
+  rnone : ∀ j, kg ≤ j → M.rOf j = none
   rfresh : RFresh s.nodes s.next
-  noR : ∀ j, M.rOf j = none
 
-/-- the node of row `j` is replaced (same identifier) by one that accounts for the new out-edge -/
-theorem Rel.update {rows : List CRow} {M : Maps} {pd : Bool} {kg : Nat} {s s' : St} {st : P1}
+theorem Rel.inj {rows : List CRow} {M : Maps} {pd : Bool} {kg : Nat} {s : St} {st : P1} (h : Rel rows M pd kg s st)
+    (j : Nat) (c : CRow) (j' : Nat) (c' : CRow) (hv : Valid rows pd kg j c) (hv' : Valid rows pd kg j' c')
+    (e : M.nOf j = M.nOf j') : j = j' :=
+  h.disj j c j' c' hv hv' (M.nOf j) (by simp [idxs]) (by rw [e]; simp [idxs])
+
+/-- every arena index in use is below the size of the arena -/
+theorem Rel.idx_lt {rows : List CRow} {M : Maps} {pd : Bool} {kg : Nat} {s : St} {st : P1} (h : Rel rows M pd kg s st)
+    (j0 : Nat) (c0 : CRow) (hv : Valid rows pd kg j0 c0) : ∀ x ∈ idxs M j0, x < s.nodes.size := by
+  intro x hx
+  obtain ⟨m, hm, hsim⟩ := h.node j0 c0 hv
+  simp only [idxs, List.mem_cons] at hx
+  rcases hx with rfl | hx
+  · exact (Array.getElem?_eq_some_iff.mp hm).1
+  · generalize hro : M.rOf j0 = ro at hsim hx
+    cases hsim with
+    | one _ => cases hx
+    | impl i' n' r _ hp =>
+      simp only [Option.toList, List.mem_singleton] at hx
+      rw [hx]
+      exact (Array.getElem?_eq_some_iff.mp hp.rnode).1
+
+/-- one node (arena index `x`) of row `j` is replaced, keeping its identifier, so that the row accounts
+for the new out-edge -/
+theorem Rel.updateG {rows : List CRow} {M : Maps} {pd : Bool} {kg : Nat} {s s' : St} {st : P1}
     (h : Rel rows M pd kg s st)
-    {j : Nat} {n n' : NodeM} {c : CRow} (new : OutEdge) (hsrc : new.src = j) (hj : j < kg)
-    (hn : s.nodes[M.nOf j]? = some n) (hc : rows[j]? = some c) (hnr : isNodeRow c = true) (hu : n'.uid = n.uid)
+    {j : Nat} {c : CRow} (new : OutEdge) (hsrc : new.src = j) (hj : j < kg)
+    (hc : rows[j]? = some c) (hnr : isNodeRow c = true)
     (htg : ∀ t, new.tgt = Target.row t → t < kg ∨ (pd = true ∧ t = kg))
-    (hn' : s'.nodes[M.nOf j]? = some n') (hoth : ∀ i, i ≠ M.nOf j → s'.nodes[i]? = s.nodes[i]?)
+    (x : Nat) (hx : x ∈ idxs M j) (hext : NExt s.nodes s'.nodes)
+    (hoth : ∀ i, i ≠ x → s'.nodes[i]? = s.nodes[i]?)
     (hg : s'.groups = s.groups) (hst : s'.stack = s.stack)
-    (hri : s'.rowIds = s.rowIds) (hna : s'.noArgs = s.noArgs)
-    (hsim : NodeSim M s'.nodes n' c (outOf st j ++ [new]))
-    (hnx : s.next ≤ s'.next := by first | exact Nat.le_refl _ | exact Nat.le_add_right _ _)
-    (hfr : ∀ r, n'.router = some (.rnd r) → ∀ cat ∈ r.cats, ∃ k, k < s'.next ∧ cat.uid = tid k := by
-      intro r hr; cases hr) :
-    Rel rows M pd kg s' { st with out := new :: st.out } ∧ NExt s.nodes s'.nodes := by
-  have hext : NExt s.nodes s'.nodes := by
-    intro i m hm
-    by_cases hij : i = M.nOf j
-    · subst hij; rw [hn] at hm; injection hm with hm; subst hm; exact ⟨n', hn', hu⟩
-    · exact ⟨m, by rw [hoth i hij]; exact hm, rfl⟩
-  refine ⟨⟨by rw [hg]; exact h.gsize, by rw [hg]; exact h.root,
+    (hri : s'.rowIds = s.rowIds) (hna : s'.noArgs = s.noArgs) (hnx : s.next ≤ s'.next)
+    (hrow : ∃ n', s'.nodes[M.nOf j]? = some n' ∧ RowSim M s'.nodes n' c (outOf st j ++ [new]) (M.rOf j))
+    (hfr : ∀ n' r, s'.nodes[x]? = some n' → n'.router = some (.rnd r) → ∀ cat ∈ r.cats, ∃ k, k < s'.next ∧ cat.uid = tid k) :
+    Rel rows M pd kg s' { st with out := new :: st.out } := by
+  refine ⟨by rw [hg]; exact h.gsize, by rw [hg]; exact h.root,
     by rw [hg]; exact h.grp, by rw [hst]; exact h.stack, by rw [hri]; exact h.ids, h.idok, h.prev, ?_, ?_,
-    by rw [hna]; exact h.args, ?_, h.inj, ?_, h.noR⟩, hext⟩
+    by rw [hna]; exact h.args, ?_, h.disj, h.rne, h.rnone, ?_⟩
   · intro o ho
     simp only [List.mem_cons] at ho
     rcases ho with rfl | ho
@@ -273,24 +378,52 @@ theorem Rel.update {rows : List CRow} {M : Maps} {pd : Bool} {kg : Nat} {s s' : 
     · subst hjj
       have : c' = c := by have := hv.2.1; rw [hc] at this; injection this with this; exact this.symm
       subst this
-      refine ⟨n', hn', ?_⟩
       have := outOf_cons_same st new
       rw [hsrc] at this
-      rw [this]; exact hsim
+      rw [this]; exact hrow
     · obtain ⟨m, hm, hp'⟩ := h.node j' c' hv
-      have hne : M.nOf j' ≠ M.nOf j := fun e => hjj (h.inj j' c' j c hv ⟨.inl hj, hc, hnr⟩ e)
-      refine ⟨m, by rw [hoth _ hne]; exact hm, ?_⟩
+      have hnotin : ∀ y, y ∈ idxs M j' → y ≠ x := by
+        intro y hy e
+        exact hjj (h.disj j' c' j c hv ⟨.inl hj, hc, hnr⟩ y hy (e ▸ hx))
+      refine ⟨m, by rw [hoth _ (hnotin _ (by simp [idxs]))]; exact hm, ?_⟩
       rw [outOf_cons_other st new j' (fun e1 => hjj (by rw [← e1, hsrc]))]
-      exact hp'.ext hext
+      refine hp'.transfer hext ?_
+      intro i hi
+      exact hoth i (hnotin i (by simp only [idxs, List.mem_cons]; exact .inr hi))
   · unfold RFresh
     intro i m r hm hr cat hcat
-    by_cases hij : i = M.nOf j
+    by_cases hij : i = x
     · subst hij
-      rw [hn'] at hm; injection hm with hm; subst hm
-      exact hfr r hr cat hcat
+      exact hfr m r hm hr cat hcat
     · rw [hoth i hij] at hm
       obtain ⟨k, hk, e⟩ := h.rfresh i m r hm hr cat hcat
       exact ⟨k, by omega, e⟩
+
+/-- the only node of row `j` is replaced (same identifier) by one that accounts for the new out-edge -/
+theorem Rel.update {rows : List CRow} {M : Maps} {pd : Bool} {kg : Nat} {s s' : St} {st : P1}
+    (h : Rel rows M pd kg s st)
+    {j : Nat} {n n' : NodeM} {c : CRow} (new : OutEdge) (hsrc : new.src = j) (hj : j < kg)
+    (hn : s.nodes[M.nOf j]? = some n) (hc : rows[j]? = some c) (hnr : isNodeRow c = true) (hro : M.rOf j = none)
+    (hu : n'.uid = n.uid)
+    (htg : ∀ t, new.tgt = Target.row t → t < kg ∨ (pd = true ∧ t = kg))
+    (hn' : s'.nodes[M.nOf j]? = some n') (hoth : ∀ i, i ≠ M.nOf j → s'.nodes[i]? = s.nodes[i]?)
+    (hg : s'.groups = s.groups) (hst : s'.stack = s.stack)
+    (hri : s'.rowIds = s.rowIds) (hna : s'.noArgs = s.noArgs)
+    (hsim : NodeSim M s'.nodes n' c (outOf st j ++ [new]))
+    (hnx : s.next ≤ s'.next := by first | exact Nat.le_refl _ | exact Nat.le_add_right _ _)
+    (hfr : ∀ r, n'.router = some (.rnd r) → ∀ cat ∈ r.cats, ∃ k, k < s'.next ∧ cat.uid = tid k := by
+      intro r hr; cases hr) :
+    Rel rows M pd kg s' { st with out := new :: st.out } ∧ NExt s.nodes s'.nodes := by
+  have hext : NExt s.nodes s'.nodes := by
+    intro i m hm
+    by_cases hij : i = M.nOf j
+    · subst hij; rw [hn] at hm; injection hm with hm; subst hm; exact ⟨n', hn', hu⟩
+    · exact ⟨m, by rw [hoth i hij]; exact hm, rfl⟩
+  refine ⟨Rel.updateG h new hsrc hj hc hnr htg (M.nOf j) (by simp [idxs]) hext hoth hg hst hri hna hnx
+    ⟨n', hn', by rw [hro]; exact .one hsim⟩ ?_, hext⟩
+  intro m r hm hr cat hcat
+  rw [hn'] at hm; injection hm with hm; subst hm
+  exact hfr r hr cat hcat
 
 theorem lookup_ids (rows : List CRow) (ids : List (Str × Nat)) (id : Str) :
     ((ids.map (fun p => (p.1, gOf rows p.2))).find? (·.1 = id)).map (·.2) = (lookupId ids id).map (gOf rows) := by
@@ -345,9 +478,9 @@ abbrev EdgePost : PUnit → St → Prop := fun _ s' =>
   Rel rows M pd kg s' { st with out := newEdge tgt cond j :: st.out } ∧ NExt s.nodes s'.nodes
 
 variable (h : Rel rows M pd kg s st) (hj : j < kg) (hn : s.nodes[M.nOf j]? = some n) (hc : rows[j]? = some c)
-  (hnode : isNodeRow c = true)
+  (hnode : isNodeRow c = true) (hro : M.rOf j = none)
   (hd : DestIs M s.nodes d (some tgt)) (htg : ∀ t, tgt = Target.row t → t < kg ∨ (pd = true ∧ t = kg))
-include h hj hn hc hnode hd htg
+include h hj hn hc hnode hro hd htg
 
 /-- an action row is left unconditionally: its one exit now leads to the new row -/
 theorem plain_edge_sim (hk : kindOf c.row.type = .action) (hp : PlainSim M s.nodes n c.row.action (outOf st j))
@@ -361,12 +494,17 @@ theorem plain_edge_sim (hk : kindOf c.row.type = .action) (hp : PlainSim M s.nod
   wp_simp [wp_fresh', wp_setNode]
   have hext : NExt s.nodes (s.nodes.setIfInBounds (M.nOf j) { n with dexitUid := tid s.next, dexitDest := d }) :=
     NExt.set hn rfl
-  refine Rel.update h (newEdge tgt cond j) rfl hj hn hc hnode (n' := { n with dexitUid := tid s.next, dexitDest := d })
+  refine Rel.update h (newEdge tgt cond j) rfl hj hn hc hnode hro (n' := { n with dexitUid := tid s.next, dexitDest := d })
     rfl htg (set_getElem?_self _ hn) (fun i hi => set_getElem?_other _ _ _ _ hi) rfl rfl rfl rfl ?_
     (hfr := fun r hr => by have h2 : n.router = some (.rnd r) := hr; rw [hp.router] at h2; cases h2)
-  refine .plain hk ⟨hp.kind, hp.router, hp.acts, ?_⟩
-  rw [getLast?_append_singleton]
-  exact hd.ext hext
+  refine .plain hk ⟨hp.kind, hp.router, hp.acts, ?_, ?_⟩
+  · rw [getLast?_append_singleton]
+    exact hd.ext hext
+  · intro e hmem
+    simp only [List.mem_append, List.mem_singleton] at hmem
+    rcases hmem with hmem | hmem
+    · exact hp.blank e hmem
+    · rw [hmem]; simpa [toRCond_blank] using he
 
 /-- an unconditional edge leaving a deciding row: the default category -/
 theorem sw_blank_sim (r : SwitchR) (hk : kindOf c.row.type = .wait ∨ kindOf c.row.type = .splitValue ∨ kindOf c.row.type = .splitGroup)
@@ -383,7 +521,7 @@ theorem sw_blank_sim (r : SwitchR) (hk : kindOf c.row.type = .wait ∨ kindOf c.
   simp only [hp.router]
   wp_simp [wp_setNode]
   have heb : (newEdge tgt cond j).cond.blank = true := by simpa [toRCond_blank] using he
-  refine Rel.update h (newEdge tgt cond j) rfl hj hn hc hnode (n' := { n with router := some (.sw (r.setDflt d)) })
+  refine Rel.update h (newEdge tgt cond j) rfl hj hn hc hnode hro (n' := { n with router := some (.sw (r.setDflt d)) })
     rfl htg (set_getElem?_self _ hn) (fun i hi => set_getElem?_other _ _ _ _ hi) rfl rfl rfl rfl ?_
   have hext : NExt s.nodes (s.nodes.setIfInBounds (M.nOf j) { n with router := some (.sw (r.setDflt d)) }) :=
     NExt.set hn rfl
@@ -413,7 +551,7 @@ theorem sw_nr_sim (r : SwitchR) (hk : kindOf c.row.type = .wait) (hp : SwitchSim
     wp_simp [wp_setNode]
     have hext : NExt s.nodes (s.nodes.setIfInBounds (M.nOf j)
         { n with router := some (.sw { r with noResp := some { nr with dest := d } }) }) := NExt.set hn rfl
-    refine Rel.update h (newEdge tgt cond j) rfl hj hn hc hnode
+    refine Rel.update h (newEdge tgt cond j) rfl hj hn hc hnode hro
       (n' := { n with router := some (.sw { r with noResp := some { nr with dest := d } }) })
       rfl htg (set_getElem?_self _ hn) (fun i hi => set_getElem?_other _ _ _ _ hi) rfl rfl rfl rfl ?_
     refine .sw _ (.inl hk) ⟨hp.kind, hp.acts, rfl, hp.operand, hp.rname, hp.wait, ?_, ?_, hp.casecat, ?_, ?_, ?_⟩
@@ -434,7 +572,7 @@ theorem sw_nr_sim (r : SwitchR) (hk : kindOf c.row.type = .wait) (hp : SwitchSim
       | some nr =>
         obtain ⟨m, hm⟩ := hp.nrSome.mp (by simp [hnoresp])
         exact absurd hm (by intro hm; exact hnot nr m hnoresp hm)
-    refine Rel.update h (newEdge tgt cond j) rfl hj hn hc hnode (n' := n) rfl htg hn (fun i _ => rfl) rfl rfl rfl rfl ?_
+    refine Rel.update h (newEdge tgt cond j) rfl hj hn hc hnode hro (n' := n) rfl htg hn (fun i _ => rfl) rfl rfl rfl rfl ?_
       (hfr := fun r hr => by have h2 : n.router = some (.rnd r) := hr; rw [hp.router] at h2; cases h2)
     refine .sw r (.inl hk) ⟨hp.kind, hp.acts, hp.router, hp.operand, hp.rname, hp.wait, hp.nrSome, ?_, hp.casecat, ?_, ?_, ?_⟩
     · rw [htests]; exact hp.cases
@@ -512,7 +650,7 @@ theorem sw_test_sim (r : SwitchR) (hk : kindOf c.row.type = .wait ∨ kindOf c.r
       rw [hr']
     rw [hr'']
     have hext : NExt s.nodes (s.nodes.setIfInBounds (M.nOf j) { n with router := some (.sw r') }) := NExt.set hn rfl
-    refine Rel.update h (newEdge tgt cond j) rfl hj hn hc hnode (n' := { n with router := some (.sw r') })
+    refine Rel.update h (newEdge tgt cond j) rfl hj hn hc hnode hro (n' := { n with router := some (.sw r') })
       rfl htg (set_getElem?_self _ hn) (fun i hi => set_getElem?_other _ _ _ _ hi) rfl rfl rfl rfl ?_
     have fcats : ∃ nm, r'.cats = r.cats ++ [{ uid := tid s.next, name := nm, exitUid := tid (s.next + 1), dest := d }] :=
       ⟨_, by rw [hr']⟩
@@ -577,7 +715,7 @@ theorem fix_succ_sim (r : SwitchR) (sc : Cat) (hk : isFixedKind (kindOf c.row.ty
   rw [hr']
   have hext : NExt s.nodes (s.nodes.setIfInBounds (M.nOf j)
       { n with router := some (.sw { r with cats := [{ sc with dest := d }] }) }) := NExt.set hn rfl
-  refine Rel.update h (newEdge tgt cond j) rfl hj hn hc hnode
+  refine Rel.update h (newEdge tgt cond j) rfl hj hn hc hnode hro
     (n' := { n with router := some (.sw { r with cats := [{ sc with dest := d }] }) })
     rfl htg (set_getElem?_self _ hn) (fun i hi => set_getElem?_other _ _ _ _ hi) rfl rfl rfl rfl ?_
   refine .fix { r with cats := [{ sc with dest := d }] } { sc with dest := d } hk
@@ -606,7 +744,7 @@ theorem fix_fail_sim (r : SwitchR) (sc : Cat) (hk : isFixedKind (kindOf c.row.ty
   wp_simp [wp_setNode]
   have hext : NExt s.nodes (s.nodes.setIfInBounds (M.nOf j) { n with router := some (.sw (r.setDflt d)) }) :=
     NExt.set hn rfl
-  refine Rel.update h (newEdge tgt cond j) rfl hj hn hc hnode (n' := { n with router := some (.sw (r.setDflt d)) })
+  refine Rel.update h (newEdge tgt cond j) rfl hj hn hc hnode hro (n' := { n with router := some (.sw (r.setDflt d)) })
     rfl htg (set_getElem?_self _ hn) (fun i hi => set_getElem?_other _ _ _ _ hi) rfl rfl rfl rfl ?_
   refine .fix (r.setDflt d) sc hk
     ⟨hp.kind, hp.acts, rfl, hp.operand, hp.rname, hp.wait, hp.noResp, hp.cats, hp.sname, hp.uidne, hp.cases, ?_, ?_⟩
@@ -653,7 +791,7 @@ theorem rand_edge_sim (r : RandomR) (hk : kindOf c.row.type = .splitRandom)
     rw [← hnc]
     have hext : NExt s.nodes (s.nodes.setIfInBounds (M.nOf j) { n with router := some (.rnd { r with cats := r.cats ++ [nc] }) }) :=
       NExt.set hn rfl
-    refine Rel.update h (newEdge tgt cond j) rfl hj hn hc hnode
+    refine Rel.update h (newEdge tgt cond j) rfl hj hn hc hnode hro
       (n' := { n with router := some (.rnd { r with cats := r.cats ++ [nc] }) })
       rfl htg (set_getElem?_self _ hn) (fun i hi => set_getElem?_other _ _ _ _ hi) rfl rfl rfl rfl ?_ (Nat.le_add_right _ _) ?_
     · refine .rnd _ hk ⟨hp.kind, hp.acts, rfl, hp.rname, ?_, ?_, ?_, ?_⟩
@@ -729,7 +867,7 @@ theorem rand_edge_sim (r : RandomR) (hk : kindOf c.row.type = .splitRandom)
       rw [← hnc]
       have hext : NExt s.nodes (s.nodes.setIfInBounds (M.nOf j) { n with router := some (.rnd { r with cats := r.cats ++ [nc] }) }) :=
         NExt.set hn rfl
-      refine Rel.update h (newEdge tgt cond j) rfl hj hn hc hnode
+      refine Rel.update h (newEdge tgt cond j) rfl hj hn hc hnode hro
         (n' := { n with router := some (.rnd { r with cats := r.cats ++ [nc] }) })
         rfl htg (set_getElem?_self _ hn) (fun i hi => set_getElem?_other _ _ _ _ hi) rfl rfl rfl rfl ?_ (Nat.le_add_right _ _) ?_
       · refine .rnd _ hk ⟨hp.kind, hp.acts, rfl, hp.rname, ?_, ?_, ?_, ?_⟩
@@ -791,7 +929,7 @@ theorem rand_edge_sim (r : RandomR) (hk : kindOf c.row.type = .splitRandom)
       have hfn : ∀ a, (f a).name = a.name := by intro a; rw [hf]; simp only; split <;> rfl
       have hext : NExt s.nodes (s.nodes.setIfInBounds (M.nOf j) { n with router := some (.rnd { r with cats := r.cats.map f }) }) :=
         NExt.set hn rfl
-      refine Rel.update h (newEdge tgt cond j) rfl hj hn hc hnode
+      refine Rel.update h (newEdge tgt cond j) rfl hj hn hc hnode hro
         (n' := { n with router := some (.rnd { r with cats := r.cats.map f }) })
         rfl htg (set_getElem?_self _ hn) (fun i hi => set_getElem?_other _ _ _ _ hi) rfl rfl rfl rfl ?_ (Nat.le_refl _) ?_
       · refine .rnd _ hk ⟨hp.kind, hp.acts, rfl, hp.rname, ?_, ?_, ?_, ?_⟩
@@ -835,291 +973,4 @@ theorem rand_edge_sim (r : RandomR) (hk : kindOf c.row.type = .splitRandom)
         exact ⟨k0, hk0, by rw [← e, hfu, e1]⟩
 
 end
-/-! ### the single-meaning conditions, read off the reference's out-edges -/
-
-/-- `outF`: all out-edges pass 1 records for the sheet -/
-abbrev isSwitchKind (K : Kind) : Prop := K = .wait ∨ K = .splitValue ∨ K = .splitGroup
-
-structure Good (rows : List CRow) (outF : List OutEdge) : Prop where
-  ok : ∀ e ∈ outF, edgeOk rows e = true
-  dist : ∀ (j : Nat) (c : CRow), rows[j]? = some c → isSwitchKind (kindOf c.row.type) →
-    ((testsOf (kindOf c.row.type) (outF.filter (·.src = j))).map (fun e => refTest (kindOf c.row.type) e.cond)).Nodup
-
-theorem Good.nodup_prefix {rows : List CRow} {outF l : List OutEdge} (g : Good rows outF) (hl : l <+: outF)
-    (j : Nat) (c : CRow) (hc : rows[j]? = some c) (hk : isSwitchKind (kindOf c.row.type)) :
-    ((testsOf (kindOf c.row.type) (l.filter (·.src = j))).map (fun e => refTest (kindOf c.row.type) e.cond)).Nodup := by
-  refine List.Nodup.sublist ?_ (g.dist j c hc hk)
-  unfold testsOf
-  exact ((((hl.filter _).filter _).filter _).map _).sublist
-
-theorem blank_value {cond : Compile.Cond} (h : cond.blank = true) : cond.value = [] := by
-  unfold Compile.Cond.blank at h
-  simp only [Bool.and_eq_true, List.isEmpty_iff] at h
-  exact h.1.1.1
-
-theorem lower_eq (v : Str) : RefFlow.lower v = Compile.lower v := rfl
-
-/-- one out-edge leaving row `j` -/
-theorem addExit_sim (rows : List CRow) (outF : List OutEdge) (g : Good rows outF) (M : Maps) (pd : Bool) (kg : Nat)
-    (d : Dest) (tgt : Target) (cond : Compile.Cond) (s : St) (st : P1) (j : Nat) (h : Rel rows M pd kg s st)
-    (hj : j < kg) (hjn : ∃ c, rows[j]? = some c ∧ isNodeRow c = true)
-    (hd : DestIs M s.nodes d (some tgt)) (htg : ∀ t, tgt = Target.row t → t < kg ∨ (pd = true ∧ t = kg))
-    (hpre : (newEdge tgt cond j :: st.out).reverse <+: outF) :
-    wp (addExit (2 * s.groups.size + 8) (gOf rows j) d cond) s (EdgePost rows M pd kg tgt cond s st j) := by
-  obtain ⟨c, hc, hnode⟩ := hjn
-  have hg := h.grp j c hj hc hnode
-  rw [h.noR j] at hg
-  simp only [Option.toList] at hg
-  obtain ⟨n, hn, hsim⟩ := h.node j c ⟨.inl hj, hc, hnode⟩
-  -- what the single-meaning conditions say about this edge
-  have hok : edgeOk rows (newEdge tgt cond j) = true :=
-    g.ok _ (hpre.subset (by simp))
-  have hfil : (newEdge tgt cond j :: st.out).reverse.filter (·.src = j) = outOf st j ++ [newEdge tgt cond j] := by
-    simp [outOf, List.filter_append]
-  simp only [edgeOk, hc, Option.map_some, toRCond_blank] at hok
-  have hfuel : 2 * s.groups.size + 8 = (2 * s.groups.size + 7) + 1 := by omega
-  rw [hfuel]
-  unfold addExit
-  wp_simp [wp_getGrp]
-  intro grp hgrp
-  rw [hg] at hgrp; injection hgrp with hgrp; subst hgrp
-  simp only
-  unfold rowAddExit
-  simp only [List.getLast?_singleton]
-  wp_simp [wp_getNode]
-  intro n' hn'
-  rw [hn] at hn'; injection hn' with hn'; subst hn'
-  cases hsim with
-  | plain hk hp =>
-    have he : cond.blank = true := by rw [hk] at hok; exact hok
-    have hkr : n.kind ≠ NodeKind.random := by rw [hp.kind]; intro hh; cases hh
-    refine ⟨fun _ => plain_edge_sim rows M pd kg d tgt cond s st j n c h hj hn hc hnode hd htg hk hp he, fun hh => absurd ⟨he, hkr⟩ hh⟩
-  | sw r hk hp =>
-    have hdist := g.nodup_prefix hpre j c hc hk
-    rw [hfil] at hdist
-    have hkr : n.kind ≠ NodeKind.random := by rw [hp.kind]; intro hh; cases hh
-    have hke : n.kind ≠ NodeKind.enter := by rw [hp.kind]; intro hh; cases hh
-    have hkw : ¬ (n.kind = NodeKind.webhook ∨ n.kind = NodeKind.airtime) := by
-      rw [hp.kind]; rintro (hh | hh) <;> cases hh
-    by_cases he : cond.blank = true
-    · exact ⟨fun _ => sw_blank_sim rows M pd kg d tgt cond s st j n c h hj hn hc hnode hd htg r hk hp he, fun hh => absurd ⟨he, hkr⟩ hh⟩
-    · have he' : cond.blank = false := by simpa using he
-      refine ⟨fun hh => absurd hh.1 he, fun _ => ⟨fun hh => absurd hh hke, fun _ => ⟨fun hh => absurd hh hkw, fun _ => ?_⟩⟩⟩
-      rw [he'] at hok
-      by_cases hnr : Compile.lower cond.value = "no response".toList
-      · -- only a wait row can be left by a "no response" edge
-        have hkwait : kindOf c.row.type = .wait := by
-          rcases hk with h1 | h1 | h1
-          · exact h1
-          · rw [h1] at hok; simp [isNR_toRCond, hnr] at hok
-          · rw [h1] at hok; simp [isNR_toRCond, hnr] at hok
-        exact ⟨fun _ => sw_nr_sim rows M pd kg d tgt cond s st j n c h hj hn hc hnode hd htg r hkwait hp he' hnr,
-          fun hh => absurd ⟨hp.kind, hnr⟩ hh⟩
-      · refine ⟨fun hh => absurd hh.2 hnr, fun _ => ?_⟩
-        have hname : cond.name = [] := by
-          rcases hk with h1 | h1 | h1 <;> rw [h1] at hok <;>
-            simp only [Bool.false_or, Bool.and_eq_true, List.isEmpty_iff, toRCond] at hok <;> exact hok.2
-        have hvar : kindOf c.row.type = .wait → cond.var = [] := by
-          intro h1; rw [h1] at hok
-          simp only [Bool.false_or, Bool.and_eq_true, List.isEmpty_iff, toRCond] at hok; exact hok.1
-        exact sw_test_sim rows M pd kg d tgt cond s st j n c h hj hn hc hnode hd htg r hk hp he' (fun _ => hnr) (fun _ => hnr) hvar hname hdist
-  | rnd r hk hp =>
-    rw [hk] at hok
-    have hke : n.kind ≠ NodeKind.enter := by rw [hp.kind]; intro hh; cases hh
-    have hkw : ¬ (n.kind = NodeKind.webhook ∨ n.kind = NodeKind.airtime) := by
-      rw [hp.kind]; rintro (hh | hh) <;> cases hh
-    have hks : n.kind ≠ NodeKind.switch := by rw [hp.kind]; intro hh; cases hh
-    refine ⟨fun hh => absurd hp.kind hh.2, fun _ => ⟨fun hh => absurd hh hke, fun _ => ⟨fun hh => absurd hh hkw, fun _ =>
-      ⟨fun hh => absurd hh.1 hks, fun _ => ?_⟩⟩⟩⟩
-    exact rand_edge_sim rows M pd kg d tgt cond s st j n c h hj hn hc hnode hd htg r hk hp hok
-  | fix r sc hk hp =>
-    have hkr : n.kind ≠ NodeKind.random := by
-      rw [hp.kind]; rcases hk with h1 | h1 | h1 <;> rw [h1] <;> intro hh <;> cases hh
-    by_cases hent : kindOf c.row.type = .enterFlow
-    · -- start_new_flow
-      have hkind : n.kind = NodeKind.enter := by rw [hp.kind, hent]; rfl
-      have hsn : succName (kindOf c.row.type) = "Complete".toList := by rw [hent]; rfl
-      constructor
-      · intro _
-        unfold rowExitBlank
-        rw [hkind]
-        exact trivial
-      · intro _
-        refine ⟨fun _ => ?_, fun hh => absurd hkind hh⟩
-        unfold rowExitEnter
-        simp only
-        split
-        · rename_i hv
-          have hs : isSucc (kindOf c.row.type) (newEdge tgt cond j) = true := by
-            rw [hent]; exact (isSucc_enter _).mpr hv
-          have hf : isFail (kindOf c.row.type) (newEdge tgt cond j) = false := by
-            rw [hent]
-            refine bool_false_of_not (fun hh => ?_)
-            have hx : Compile.lower cond.value = "expired".toList := (isFail_enter _).mp hh
-            rcases hv with hv | hv <;> rw [hv] at hx <;> exact absurd hx (by decide)
-          have := fix_succ_sim rows M pd kg d tgt cond s st j n c h hj hn hc hnode hd htg r sc hk hp hs hf
-          rw [hsn] at this; exact this
-        · rename_i hv
-          split
-          · rename_i hx
-            have hs : isSucc (kindOf c.row.type) (newEdge tgt cond j) = false := by
-              rw [hent]
-              exact bool_false_of_not (fun hh => hv ((isSucc_enter _).mp hh))
-            have hf : isFail (kindOf c.row.type) (newEdge tgt cond j) = true := by
-              rw [hent]; exact (isFail_enter _).mpr hx
-            exact fix_fail_sim rows M pd kg d tgt cond s st j n c h hj hn hc hnode hd htg r sc hk hp hs hf
-          · exact trivial
-    · -- call_webhook / transfer_airtime
-      have hkind : n.kind = NodeKind.webhook ∨ n.kind = NodeKind.airtime := by
-        rw [hp.kind]
-        rcases hk with h1 | h1 | h1
-        · exact absurd h1 hent
-        · rw [h1]; exact .inl rfl
-        · rw [h1]; exact .inr rfl
-      have hke : n.kind ≠ NodeKind.enter := by rcases hkind with h1 | h1 <;> rw [h1] <;> intro hh <;> cases hh
-      have hkb : n.kind ≠ NodeKind.basic := by rcases hkind with h1 | h1 <;> rw [h1] <;> intro hh <;> cases hh
-      have hsn : succName (kindOf c.row.type) = "Success".toList := by unfold succName; rw [if_neg hent]
-      by_cases he : cond.blank = true
-      · refine ⟨fun _ => ?_, fun hh => absurd ⟨he, hkr⟩ hh⟩
-        have hval := blank_value he
-        have hs : isSucc (kindOf c.row.type) (newEdge tgt cond j) = false := by
-          refine bool_false_of_not (fun hh => ?_)
-          have hx : Compile.lower cond.value = "success".toList := (isSucc_hook _ hent _).mp hh
-          rw [hval] at hx
-          exact absurd hx (by decide)
-        have hf : isFail (kindOf c.row.type) (newEdge tgt cond j) = true :=
-          (isFail_hook _ hent _).mpr (.inl he)
-        have := fix_fail_sim rows M pd kg d tgt cond s st j n c h hj hn hc hnode hd htg r sc hk hp hs hf
-        unfold rowExitBlank
-        split
-        · rename_i hb; exact absurd hb hkb
-        · rename_i hb; exact absurd hb hke
-        · exact this
-      · have he' : cond.blank = false := by simpa using he
-        refine ⟨fun hh => absurd hh.1 he, fun _ => ⟨fun hh => absurd hh hke, fun _ => ⟨fun _ => ?_, fun hh => absurd hkind hh⟩⟩⟩
-        unfold rowExitHook
-        simp only
-        split
-        · rename_i hv
-          have hs : isSucc (kindOf c.row.type) (newEdge tgt cond j) = true := (isSucc_hook _ hent _).mpr hv
-          have hf : isFail (kindOf c.row.type) (newEdge tgt cond j) = false := by
-            refine bool_false_of_not (fun hh => ?_)
-            rcases (isFail_hook _ hent _).mp hh with hx | hx
-            · exact he hx
-            · have hx' : Compile.lower cond.value = "failure".toList := hx
-              rw [hv] at hx'; exact absurd hx' (by decide)
-          have := fix_succ_sim rows M pd kg d tgt cond s st j n c h hj hn hc hnode hd htg r sc hk hp hs hf
-          rw [hsn] at this; exact this
-        · rename_i hv
-          split
-          · rename_i hx
-            have hs : isSucc (kindOf c.row.type) (newEdge tgt cond j) = false :=
-              bool_false_of_not (fun hh => hv ((isSucc_hook _ hent _).mp hh))
-            have hf : isFail (kindOf c.row.type) (newEdge tgt cond j) = true := (isFail_hook _ hent _).mpr (.inr hx)
-            exact fix_fail_sim rows M pd kg d tgt cond s st j n c h hj hn hc hnode hd htg r sc hk hp hs hf
-          · exact trivial
-
-/-- one edge with destination `d` (reference target `tgt`): the compiler machine and pass 1 stay
-related -/
-theorem edge_sim (rows : List CRow) (outF : List OutEdge) (g : Good rows outF) (M : Maps) (pd : Bool) (kg : Nat)
-    (d : Dest) (tgt : Target) (e : Compile.Edge) (s : St) (st st' : P1) (h : Rel rows M pd kg s st)
-    (hd : DestIs M s.nodes d (some tgt)) (htg : ∀ t, tgt = Target.row t → t < kg ∨ (pd = true ∧ t = kg))
-    (hst : edgeStep st kg (toREdge e) tgt = .ok st')
-    (hpre : st'.out.reverse <+: outF) :
-    wp (addRowEdge d e) s (fun _ s' => Rel rows M pd kg s' st' ∧ NExt s.nodes s'.nodes) := by
-  unfold edgeStep at hst
-  have key : ∀ j, edgeSrc st kg (toREdge e) = .ok (some j) → j < kg → (∃ c, rows[j]? = some c ∧ isNodeRow c = true) →
-      wp (addExit (2 * s.groups.size + 8) (gOf rows j) d e.cond) s (fun _ s' =>
-        Rel rows M pd kg s' st' ∧ NExt s.nodes s'.nodes) := by
-    intro j hsrc hj hjn
-    rw [hsrc] at hst
-    simp only [Except.ok.injEq] at hst
-    subst hst
-    exact addExit_sim rows outF g M pd kg d tgt e.cond s st j h hj hjn hd htg hpre
-  unfold addRowEdge
-  wp_simp [wp_groupOfEdge, wp_fuelOf]
-  by_cases hs : e.from_ = "start".toList
-  · have : edgeSrc st kg (toREdge e) = .ok none := by simp [edgeSrc, toREdge, hs]
-    rw [this] at hst; injection hst with hst; subst hst
-    rw [if_pos hs]
-    exact ⟨h, NExt.refl _⟩
-  · rw [if_neg hs]
-    by_cases hemp : e.from_ = []
-    · have hsrc : edgeSrc st kg (toREdge e) = .ok st.prev := by
-        simp only [edgeSrc, toREdge, hs, hemp, List.isEmpty_nil, if_true, if_false]
-        cases st.prev <;> rfl
-      rw [if_pos hemp, h.stack, mostRecent_root s.groups _ h.root]
-      have hprev := h.prev
-      cases hpv : st.prev with
-      | none =>
-        rw [hpv] at hsrc
-        rw [hsrc] at hst
-        have hprev' : gOf rows kg = 1 := by have := h.prev; rw [hpv] at this; exact this
-        have : gOf rows kg - 1 = 0 := by omega
-        simp only [this, if_true]
-        injection hst with hst; subst hst
-        exact ⟨h, NExt.refl _⟩
-      | some p =>
-        rw [hpv] at hsrc
-        have hprev' : p < kg ∧ (∃ c, rows[p]? = some c ∧ isNodeRow c = true) ∧ gOf rows p + 1 = gOf rows kg := by
-          have := h.prev; rw [hpv] at this; exact this
-        obtain ⟨hp1, hp2, hp3⟩ := hprev'
-        have hpos := gOf_pos rows p
-        have hne : ¬ (gOf rows kg - 1 = 0) := by omega
-        simp only [hne, if_false]
-        wp_simp [wp_fuelOf]
-        have := key p hsrc hp1 hp2
-        have e1 : gOf rows kg - 1 = gOf rows p := by omega
-        rw [e1]
-        exact this
-    · have hsrc : edgeSrc st kg (toREdge e) =
-          match lookupId st.ids e.from_ with
-          | some j => .ok (some j)
-          | none => .error (.unknownFrom kg e.from_) := by
-        simp only [edgeSrc, toREdge, hs, if_false, List.isEmpty_iff, hemp]
-        rfl
-      rw [if_neg hemp, h.ids, lookup_ids]
-      cases hl : lookupId st.ids e.from_ with
-      | none => simp only [Option.map_none]
-      | some j =>
-        simp only [Option.map_some]
-        obtain ⟨p, hp, hpj⟩ := lookupId_mem hl
-        have := h.idok p hp
-        rw [hpj] at this
-        exact key j (by rw [hsrc, hl]) this.1 this.2
-
-/-! ### all edges of a row that lead to one destination -/
-
-theorem edges_sim (rows : List CRow) (outF : List OutEdge) (g : Good rows outF) (M : Maps) (pd : Bool) (kg : Nat)
-    (d : Dest) (tgt : Target) :
-    ∀ (es : List Compile.Edge) (s : St) (st st' : P1),
-      Rel rows M pd kg s st → DestIs M s.nodes d (some tgt) →
-      (∀ t, tgt = Target.row t → t < kg ∨ (pd = true ∧ t = kg)) →
-      addEdges st kg (es.map fun e => (toREdge e, tgt)) = .ok st' →
-      st'.out.reverse <+: outF →
-      wp (es.forM (addRowEdge d)) s (fun _ s' =>
-        Rel rows M pd kg s' st' ∧ NExt s.nodes s'.nodes) := by
-  intro es
-  induction es with
-  | nil =>
-    intro s st st' h _ _ hst _
-    rw [List.map_nil, addEdges_nil] at hst
-    injection hst with hst; subst hst
-    rw [wp_forM_nil]; exact ⟨h, NExt.refl _⟩
-  | cons e es ih =>
-    intro s st st' h hd htg hst hpre
-    rw [List.map_cons, addEdges_cons] at hst
-    rw [wp_forM_cons]
-    cases h1 : edgeStep st kg (toREdge e) tgt with
-    | error err => rw [h1] at hst; cases hst
-    | ok st1 =>
-      rw [h1] at hst
-      simp only at hst
-      have hpre1 : st1.out.reverse <+: outF := (addEdges_prefix _ _ _ _ hst).trans hpre
-      refine wp_mono (edge_sim rows outF g M pd kg d tgt e s st st1 h hd htg h1 hpre1) ?_
-      intro _ s1 ⟨r1, e1⟩
-      refine wp_mono (ih s1 st1 st' r1 (hd.ext e1) htg hst hpre) ?_
-      intro _ s2 ⟨r2, e2⟩
-      exact ⟨r2, e1.trans e2⟩
-
 end Rpft.CoreSheet
